@@ -71,6 +71,8 @@ def run(ctx):
                 combos.append((LINKTYPES[nrow % 3], VCLASSES[1 + nrow % 2]))
             if len(keys) == 1:
                 combos.append((LINKTYPES[nrow % 3], "EqVert"))      # the key and the extra vertex are distinct objects that compare equal
+            if len(keys) < 3 and nrow % 4 == 1:
+                combos.append((("RoadLink", "FixedEndsEdge")[nrow % 8 == 1], "Vertex"))     # user edge classes: other constructor parameter names / ends fixed at construction
             for lt, vcls in combos:
                 if len(keys) == 2 and lt != "DirectedEdge" and (len(rows[0]) + len(rows[1])) > 3 and vcls == "Vertex":
                     continue
@@ -116,6 +118,8 @@ def run(ctx):
                 combos.append((LINKTYPES[ci % 3], VCLASSES[1 + ci % 2]))
             if size == 2 or (size == 3 and ci % 5 == 0):
                 combos.append((LINKTYPES[(ci + 1) % 3], "EqVert"))
+            if size == 2 and ci % 3 == 1:
+                combos.append((("RoadLink", "FixedEndsEdge")[ci % 2], "Vertex"))
             for lt, vcls in combos:
                 try:
                     V, P, W = world(h, names + ["e"], vcls)
